@@ -67,7 +67,11 @@ def validate_events(events, chunk=25000):
 def run_stage(name, handles, groups, maxlen, tier, is_path, scratch, nonascii, per_hist):
     defs = {'Handles': set(handles), 'ObsGroups': set(groups), 'MaxLen': maxlen}
     cfg = 'SPECIFICATION Spec\nINVARIANT CacheProtocol\nCHECK_DEADLOCK FALSE\n'
-    params = {'scratch': scratch, 'texts': texts_for(tier, nonascii), 'is_path': is_path,
+    from . import randterms as RT
+    seed = int(os.environ.get('VERIF_SEED', '0') or 0)
+    g = RT.Gen(seed * 31 + 5, bad_share=0.0, alphabet=[97, 98, 97, 98, 10, 65, 46])
+    rterms = [RT.to_json(g.term(g.r.choice([1, 2, 2, 3]))) for _ in range(60 if tier == 'quick' else 400)]
+    params = {'scratch': scratch, 'texts': texts_for(tier, nonascii), 'is_path': is_path, 'random_terms': rterms,
               'patterns_per_history': per_hist[0], 'texts_per_history': per_hist[1]}
     farm = Farm('harness.judge_api.judge', params, seeds=(0,), mode='rr')
 
@@ -128,7 +132,7 @@ def api_check(prop, stages, tier_arg=None):
             ctx = ev['ctx']
             failures.append({'property': prop, 'kind': 'api', 'replay_module': 'checks_api', 'facet': 'rejected-by-spec',
                              'term': ctx['pattern'], 'spelling': ctx['method'], 'method': ctx['method'], 'params': ctx['params'],
-                             'pattern': ctx['pattern'], 'pattern_text': ctx['pattern_text'], 'text': ctx['text'],
+                             'pattern': ctx['pattern'], 'pattern_text': ctx['pattern_text'], 'text': ctx['text'], 'pattern_term': ctx.get('pattern_term'),
                              'is_path': ctx['is_path'], 'cached': ctx['cached'], 'history': ctx['history'],
                              'detail': {'result': ev['r'], 'exc': ev['exc'], 'shape_ok': ev['shape'], 'ML': ev['ML'],
                                         'names': ev['names'], 'params': ctx['params']},
@@ -192,7 +196,7 @@ def replay_record(rec):
     scratch = tempfile.mkdtemp(prefix='pregex-verif.replay.', dir=scratch_root())
     try:
         r = J.Recorder(scratch)
-        psrc = dict(J.PATTERNS)[rec['pattern']]
+        psrc = dict(J.PATTERNS).get(rec['pattern']) or rec.get('pattern_term')
         hist = [tuple(h) for h in rec['history']]
         flags = [False] * len(hist)
         J.GROUPS_BACKUP = J.GROUPS
